@@ -242,6 +242,15 @@ fn execute(prog: Program) -> Outcome {
                             inbox.push_back(n);
                         }
                     }
+                    // records of conflicts that were answered already are not notices: a registering arbiter is not sent them
+                    let answered: Vec<&String> = r.msgs.iter().filter(|m| m.starts_with("resolved")).collect();
+                    if !answered.is_empty() {
+                        out.violations.push(Violation::new(
+                            "registration-redelivery-wrong",
+                            format!("{}:answered-records", loc),
+                            format!("op #{}: the newly registered arbiter was sent records of conflicts that are resolved already: {:?}", i, answered),
+                        ));
+                    }
                     arbiter = Some(a);
                     ever_registered = true;
                     // a newly registered arbiter is sent exactly the unresolved conflicts
@@ -452,7 +461,8 @@ fn execute(prog: Program) -> Outcome {
         let mut a2 = Session::admin(&dbs[0]);
         a2.exec("use-db a tok");
         let r = a2.exec("arbiter");
-        let extra: Vec<&String> = r.msgs.iter().filter(|m| m.starts_with("resolve ")).collect();
+        // (anything that looks like a notice or a record of one: `resolve <id> ...` or an already answered `resolved <value>`)
+        let extra: Vec<&String> = r.msgs.iter().filter(|m| m.starts_with("resolve")).collect();
         if !extra.is_empty() {
             out.violations.push(Violation::new("registration-redelivery-wrong", format!("{}:too-many", loc), format!("nothing is pending but a new arbiter was sent {:?}", extra)));
         }
